@@ -29,20 +29,21 @@ PROPERTY = 'C15'
 LEVEL = 'exploration'
 RULE = ('A case = (n items, entry point, pool size, result mode, failing subset, schedule). Schedule = a '
         'sequence of release(i) actions (a permutation of the items = intended completion order) interleaved '
-        'with "consumer may take k results" grants. Bounded-exhaustive part: n <= 4 (quick) / n <= 5 (thorough): '
-        'all permutations x pool sizes 1..n+1 (0..2 for n = 0) x all failing subsets x {raise, result objects, '
-        'result objects with the in-tree caller pattern "shutdown(True) and stop at the first error"} x entry points '
-        '{Pool.imap (1 and 2 iterables), Pool.map, Pool.starmap (1- and 2-tuples), Pool.starcall (0- and 1-arg '
-        'callables), module-level imap/starmap/starcall} x 6 fixed consume patterns (eager, late, '
-        'first-then-all, stepwise, lag, half). Random part (Hypothesis): n = 5..6 (quick) / 6 (thorough) with free '
-        'interleavings of grants (k in 0..3 or unlimited) and burst releases (no quiescence wait in between). '
-        'A case is non-trivial when the observed completion order differs from the input order, or a failing '
-        'item is not the last one to complete; distinct = distinct case descriptions.')
+        'with "consumer may take k results" grants. Bounded-exhaustive part: all permutations x pool sizes 1..n+1 '
+        '(0..2 for n = 0) x all failing subsets x {raise, result objects, result objects with the in-tree caller '
+        'pattern "shutdown(True) and stop at the first reported error"} x entry points {Pool.imap (1 and 2 iterables), '
+        'Pool.map, Pool.starmap (1- and 2-tuples), Pool.starcall (0- and 1-arg callables), module-level '
+        'imap/starmap/starcall}; for n <= 3 (quick) / 4 (thorough) every entry point runs under 6 fixed consume '
+        'patterns (eager, late, first-then-all, stepwise, lag, half); for n = 4 (quick) / 5 (thorough) Pool.imap runs '
+        'under all 6 patterns and the other entry points under the eager consumer. Random part (Hypothesis): '
+        'n = 5..6 (quick) / 6 (thorough) with free interleavings of grants (k in 0..3 or unlimited) and burst releases '
+        '(no quiescence wait in between). A case is non-trivial when the observed completion order differs from the '
+        'input order, or a failing item is not the last one to complete; distinct = distinct case descriptions.')
 ASSUMPTIONS = [
     'a fresh pool per fan-out (what every in-tree caller does); reuse of a pool after a raise is not explored',
     'task results are not shaped like sys.exc_info() (a 3-tuple with an Exception in the middle) - the pool detects errors by shape by design',
     'tasks raise Exception subclasses (BaseException such as KeyboardInterrupt is out of scope)',
-    'liveness is bounded: the consumer must finish / the workers must exit within a %d s watchdog after every item was released',
+    'liveness is bounded: the consumer must finish / the workers must exit within a 30 s watchdog (VERIF_C15_WATCHDOG) after every item was released; a shard stops searching after its first watchdog expiry (recorded as inconclusive)',
     'completion order is owned at the granularity "task body finished"; the order in which two workers reach result_queue.put after a burst release is left to the OS',
     'empty input (n = 0) only for the imap/map entry points (star entry points index args[0])',
 ]
@@ -258,9 +259,6 @@ def consumer_main(R, call, pool):
         R.bump()
 
 
-_trace_lock = threading.Lock()
-
-
 class traced_pools(object):
     """Wraps (does not replace) ThreadPool._init_pool / _single_call for the duration of one case so the
     harness learns which worker threads belong to the case, when the consumer reaches task_queue.join()
@@ -435,6 +433,8 @@ def judge(R):
     term = R.terminal
     if term is None:  # pragma: no cover
         raise core.HarnessError('consumer finished without terminal state')
+    if term[0] == 'raise' and isinstance(term[1], core.HarnessError):
+        raise term[1]
     if term[0] == 'not-a-list':
         return ('map-not-a-list', 'Pool.map returned %s' % term[1])
 
@@ -732,7 +732,7 @@ def scope_for(tier):
     return full, top
 
 
-MAX_EXPIRIES = 2  # watchdog expiries (deadlock / leaked workers) after which a shard stops searching
+MAX_EXPIRIES = 1  # watchdog expiries (deadlock / leaked workers) after which a shard stops searching
 
 
 class Session(object):
